@@ -11,6 +11,7 @@
 import XzVerif.Lemmas.XzDecodeStream
 import XzVerif.Lemmas.XzFlip
 import XzVerif.Lemmas.XzLocal
+import XzVerif.Lemmas.XzFlipWhole
 import XzVerif.Lemmas.C16
 
 namespace XzVerif.C05
@@ -180,11 +181,27 @@ theorem block_tail_bitflip_rejected (E : Env) (hloc : PayloadLocal E) (check hs 
     (blockDecode E check false hs h (flipBit inp i) cap).ret ≠ .streamEnd :=
   blockDecode_tail_flip E hloc check hs h inp cap _ rfl hb hsup hwf i hlo hhi
 
+/-- **header_bitflip_rejected (Index and Stream Footer, whole file).**  Without LZMA_CONCATENATED: an accepted file ends
+    with an Index field (canonical encoding of the decoded Blocks, `12 + c` bytes into the Stream) and the Stream Footer;
+    flipping any one bit of either — except in the Index Indicator byte — makes the decoder reject the file. -/
+theorem index_footer_bitflip_rejected (E : Env) (hloc : PayloadLocal E) (hbd : PayloadBounded E) (fl : Flags)
+    (hnc : fl.concatenated = false) (b : List UInt8) (cap : Nat) (hr : (xzDecode E fl b cap).ret = .streamEnd) :
+    ∃ (c : Nat) (final : HashInfo),
+      (xzDecode E fl b cap).consumed = STREAM_HEADER_SIZE + c + indexHashSize final + STREAM_HEADER_SIZE ∧
+      (b.drop (STREAM_HEADER_SIZE + c)).take (indexHashSize final) = indexEncode final ∧
+      ∀ (i : Nat), 8 * (STREAM_HEADER_SIZE + c + 1) ≤ i → i < 8 * (xzDecode E fl b cap).consumed →
+        (xzDecode E fl (flipBit b i) cap).ret ≠ .streamEnd := by
+  have e1 := xzDecode_single E fl hnc b cap hr
+  rw [e1] at hr ⊢
+  obtain ⟨c, final, h1, h2, h3⟩ := streamOne_index_footer_flip E hloc hbd fl true b cap hr
+  exact ⟨c, final, h1, h2, fun i hlo hhi => xzDecode_ne_of_streamOne E fl _ cap (h3 i hlo hhi)⟩
+
 /-- The whole-file form: every single-bit flip in Stream Header, Block Header, Block Padding, Check (supported ID, no
     LZMA_IGNORE_CHECK), Index, Stream Footer or (LZMA_CONCATENATED) Stream Padding of an accepted file is rejected.
-    Proved: Stream Header for the whole file (`stream_header_bitflip_rejected`); every other field at the stage that
-    reads it.  Missing for the whole-file form: (i) the lifting lemma "a flip after the bytes a stage has consumed does
-    not change that stage's answer" through `blocksLoop` (needs `PayloadLocal`), and (ii) the two bytes whose flip
+    Proved for the whole file: Stream Header (`stream_header_bitflip_rejected`), Index and Stream Footer
+    (`index_footer_bitflip_rejected`); at the stage that reads them: Block Header, Block Padding, Check.  Missing for the
+    whole-file form: (i) lifting the three Block-level theorems through the Blocks that precede the damaged one
+    (`BlocksRun_local` is the tool), (ii) Stream Padding with LZMA_CONCATENATED, and (iii) the two bytes whose flip
     changes the parse instead of failing a CRC — the Block Header Size byte and the Index Indicator — for which rejection
     is not a theorem of the format (it would need a CRC32 coincidence to be excluded).  The correspondence run checks
     all of them exhaustively on the real decoder (`per_field_bitflips` in the evidence). -/
